@@ -155,7 +155,7 @@ CHECKS = {
     "C15": (
         "model_checking",
         "CrossHair (z3) exhaustive exploration of inputs and ordered input pairs: frame condition (structural fingerprint of every module- and class-level object before/after each parse), history independence against fresh-interpreter baselines, re-entrant parses from inside every callback",
-        "(F) for every input of the pool no parse leaves a write in any of the ~530 module/class-level objects (incl. the prototype lexer); (H) for ALL ordered pairs (A, B) the outcome of B after A equals its outcome as the first parse of a fresh interpreter; (R) for all pairs, B parsed from inside every callback of A equals its stand-alone outcome and A is unaffected. 'Confirmed over all paths' = the pair space was exhausted.",
+        "(F) for every input of the pool no parse leaves a write in any of the ~530 module/class-level objects (incl. the prototype lexer) - a sufficient condition: a write is reported as a violation only when a later parse of the pool observes it, otherwise as undecided; (H) for ALL ordered pairs (A, B) the outcome of B after A equals its outcome as the first parse of a fresh interpreter; (R) for all pairs, B parsed from inside every callback of A equals its stand-alone outcome and A is unaffected. 'Confirmed over all paths' = the pair space was exhausted.",
         "Bound: pool of 100 valid / invalid / truncated / lexer-error inputs incl. inputs through the pcpp hook; fresh-interpreter outcomes under 3 (quick) / 8 (thorough) PYTHONHASHSEED values must agree; histories of length 2 (longer ones only through (F)). THREAD SCHEDULES ARE NOT EXPLORED - no engine here models Python interleavings; that quantifier is covered only via (F) under the assumption that concurrent reads of unmodified objects are safe in CPython. One concrete 4-thread run is a smoke test, not a verdict.",
         "DESIGN.md 3/C15",
     ),
